@@ -226,6 +226,7 @@ pub struct Scenario {
     /// transport knobs (M2)
     pub max_read_chunk: usize,
     pub write_script: Vec<WriteResp>,
+    pub tear_at: Option<u64>,
     pub note: String,
 }
 
@@ -285,6 +286,7 @@ pub struct RunRecord {
     pub out_garbled: bool,
     pub reads: Vec<(u64, usize)>,
     pub write_calls: Vec<(u64, usize, i64)>,
+    pub torn_pending_at: Option<u64>,
 }
 
 fn outcome_term(r: &Result<(), passage_protocol::Error>) -> String {
@@ -342,7 +344,7 @@ pub fn run_scenario(sc: &Scenario, rng: &mut Rng) -> RunRecord {
     rt.block_on(async move {
         let mut rng = Rng(seed);
         let pipe = Pipe::new();
-        { let mut s = pipe.st.lock().unwrap(); s.max_read_chunk = sc.max_read_chunk; s.write_script = sc.write_script.iter().cloned().collect(); }
+        { let mut s = pipe.st.lock().unwrap(); s.max_read_chunk = sc.max_read_chunk; s.write_script = sc.write_script.iter().cloned().collect(); s.tear_at = sc.tear_at; }
         let log = Arc::new(Mutex::new(CallLog::default()));
         let real_loc = Arc::new(passage_adapters::FixedLocalizationAdapter::new(sc.ads.loc_default.clone(), sc.ads.loc_table.clone()));
         let ad = Arc::new(Scripted { sc: Arc::new(sc.ads.clone()), log: log.clone(), pipe: pipe.clone(), real_loc });
@@ -560,7 +562,7 @@ pub fn run_scenario(sc: &Scenario, rng: &mut Rng) -> RunRecord {
         let l = log.lock().unwrap();
         rec.calls = l.calls.clone(); rec.call_seq = l.call_seq.clone(); rec.results = l.results.clone(); rec.loc = l.loc.clone();
         let s = pipe.st.lock().unwrap();
-        rec.wire_out = s.out_log.clone(); rec.reads = s.reads.clone(); rec.write_calls = s.write_calls.clone();
+        rec.wire_out = s.out_log.clone(); rec.reads = s.reads.clone(); rec.write_calls = s.write_calls.clone(); rec.torn_pending_at = s.torn_pending_at;
         rec
     })
 }
